@@ -4,7 +4,7 @@ based exceptional control flow.  Produces guarded-effect paths (DESIGN.md 3.4)."
 import ast
 import copy
 
-from .model import AnalysisError
+from .model import exc_is_subclass, AnalysisError
 from .cfg import build_cfg
 from .expr import txt, subst, unawait, calls_in, atom, dotted
 from .absval import AbsEval, Const, Kind
@@ -134,6 +134,33 @@ FACTS = '$facts'    # env key: atom text -> truth value established by guards on
 _PURE_BUILTINS = {'isinstance', 'len', 'type', 'callable', 'str', 'int', 'hasattr'}
 _PURE_METHODS = {'rsplit', 'split', 'strip', 'lower', 'upper', 'startswith', 'endswith', 'format',
                  'rpartition', 'partition', 'lstrip', 'rstrip', 'decode', 'encode'}
+
+
+def _dnf(cond, want):
+    """Alternatives (lists of (atom expr, polarity)) under which cond has truth value want;
+    ``and`` / ``or`` / ``not`` are expanded with short-circuit order, anything else is one
+    atom.  A plain atom gives [[(cond, want)]]."""
+    c = cond
+    if isinstance(c, ast.UnaryOp) and isinstance(c.op, ast.Not):
+        return _dnf(c.operand, not want)
+    if isinstance(c, ast.BoolOp) and len(c.values) <= 4:
+        conj = isinstance(c.op, ast.And)
+        # conj & want / disj & not want: every operand has the value `want`
+        if conj == want:
+            alts = [[]]
+            for v in c.values:
+                alts = [a + b for a in alts for b in _dnf(v, want)]
+            return alts
+        # otherwise: the first i operands have `not decisive`, operand i is decisive
+        out = []
+        prefix = [[]]
+        for v in c.values:
+            for a in prefix:
+                for b in _dnf(v, want):
+                    out.append(a + b)
+            prefix = [a + b for a in prefix for b in _dnf(v, not want)]
+        return out
+    return [[(cond, want)]]
 
 
 def _stable(cond):
@@ -372,13 +399,8 @@ class _Frame:
         if cls is None:
             return None
         for n in names:
-            c = cls
-            seen = set()
-            while c is not None and c not in seen:
-                if c == n:
-                    return True
-                seen.add(c)
-                c = self.en.exc_parents.get(c)
+            if exc_is_subclass(cls, n, self.en.exc_parents):
+                return True
             if n == 'BaseException':
                 return True
             if n == 'Exception' and cls not in ('KeyboardInterrupt', 'SystemExit',
@@ -598,42 +620,58 @@ class _Frame:
                 while isinstance(cond, ast.Call) and isinstance(cond.func, ast.Name) and \
                         cond.func.id == 'bool' and len(cond.args) == 1 and not cond.keywords:
                     cond = cond.args[0]     # as a condition, bool(x) is x
-                t = self.evaluator(env).truth(cond)
-                # a local that was tested before keeps the truth value it had then, whatever
-                # happened since to the state its defining expression reads
                 lkey = None
                 if isinstance(node.ast, ast.Name) and env.get(node.ast.id) is not None:
                     lkey = '$local:' + node.ast.id
-                    if t is None:
-                        t = (env.get(FACTS) or {}).get(lkey)
                 self.exc_edges(node, env, events2, visits, raised, hcls)
                 for (succ, lab) in node.succ:
                     if lab not in ('T', 'F'):
                         continue
                     want = (lab == 'T')
-                    if t is not None and t != want:
-                        continue
-                    ev2 = list(events2)
-                    e = Event('guard', expr=cond, pol=want, node=node, func=self.fi,
-                              depth=self.depth, raw=node.ast, ctx=self.ctx)
-                    env3 = env
-                    if t is not None:
+                    # a local that was tested before keeps the truth value it had then,
+                    # whatever happened since to the state its defining expression reads
+                    known = (env.get(FACTS) or {}).get(lkey) if lkey else None
+                    if known is not None and self.evaluator(env).truth(cond) is None:
+                        if known != want:
+                            continue
+                        ev2 = list(events2)
+                        e = Event('guard', expr=cond, pol=want, node=node, func=self.fi,
+                                  depth=self.depth, raw=node.ast, ctx=self.ctx)
                         e.cls = 'decided'
-                    elif _stable(cond):
-                        a, pl = atom(cond, want)
-                        facts = dict(env.get(FACTS) or {})
-                        facts[a] = pl
+                        ev2.append(e)
+                        self.walk(succ, env, ev2, visits, pending, hcls)
+                        continue
+                    # the condition atoms were lowered by the CFG builder; a local that
+                    # stands for a compound condition (``ok = a and b`` ... ``if ok:``)
+                    # brings a compound back in: it is split here the same way
+                    for alt in _dnf(cond, want):
+                        env3 = env
+                        ev2 = list(events2)
+                        feasible = True
+                        for (a_expr, a_pol) in alt:
+                            t = self.evaluator(env3).truth(a_expr)
+                            if t is not None and t != a_pol:
+                                feasible = False
+                                break
+                            e = Event('guard', expr=a_expr, pol=a_pol, node=node, func=self.fi,
+                                      depth=self.depth, raw=node.ast, ctx=self.ctx)
+                            if t is not None:
+                                e.cls = 'decided'
+                            elif _stable(a_expr):
+                                a, pl = atom(a_expr, a_pol)
+                                facts = dict(env3.get(FACTS) or {})
+                                facts[a] = pl
+                                env3 = dict(env3)
+                                env3[FACTS] = facts
+                            ev2.append(e)
+                        if not feasible:
+                            continue
                         if lkey:
+                            facts = dict(env3.get(FACTS) or {})
                             facts[lkey] = want
-                        env3 = dict(env)
-                        env3[FACTS] = facts
-                    elif lkey:
-                        facts = dict(env.get(FACTS) or {})
-                        facts[lkey] = want
-                        env3 = dict(env)
-                        env3[FACTS] = facts
-                    ev2.append(e)
-                    self.walk(succ, env3, ev2, visits, pending, hcls)
+                            env3 = dict(env3)
+                            env3[FACTS] = facts
+                        self.walk(succ, env3, ev2, visits, pending, hcls)
             self.eval_calls(node, [node.ast], env, list(events), k)
             return
         if kind == 'iter':
@@ -1030,7 +1068,13 @@ class _Frame:
                     return
                 env2 = dict(env)
                 ev2 = list(events2)
-                if isinstance(st.target, ast.Name):
+                if isinstance(st.target, ast.Name) and self.en.keep is not None and \
+                        self.depth == 0 and self.rdepth == 0 and \
+                        self.en.keep(st.target.id, vals[0], self.fi):
+                    # a kept local: ``x += e`` is the (recorded) rebinding x := x + e
+                    self.bind_target(st.target, ast.BinOp(ast.Name(st.target.id, ast.Load()),
+                                                          st.op, vals[0]), env2, ev2, node)
+                elif isinstance(st.target, ast.Name):
                     cur = env.get(st.target.id) or ast.Name(st.target.id, ast.Load())
                     lk = '$local:' + st.target.id
                     if env2.get(FACTS) and lk in env2[FACTS]:
